@@ -302,6 +302,17 @@ def rule_thread_count(ctx):
             os_ = b.origins(s.args()[0], s)
             bs = [_bounds(b, x) for x in os_]
             ok = bool(bs) and all(lo >= 1 and hi <= 64 for lo, hi in bs)
+            if not ok:
+                # the bounding may live in the constructor itself
+                for nm in ("executor::Executor::new_multi_threaded", "executor::mt_executor::Executor::new"):
+                    cb = P.body(nm)
+                    if cb is None:
+                        continue
+                    for c in cb.calls(r"::(clamp|max|min)$"):
+                        if cb.origins(c.args()[0], c) == frozenset([("arg", 1)]):
+                            lo, hi = _bounds(cb, ("call", c.b, c.callee))
+                            if lo >= 1 and hi <= 64:
+                                ok = True
             ctx.ob("thread-count-clamped|%s" % K.owner_fn(P, b).name, ok,
                    "the worker count handed to the multi-threaded executor is bounded to 1..=usize::BITS (bounds found: %s)" % bs, [s])
     ctx.ob("floor|multi-threaded-executor-sites", n >= 1, "expected >= 1 construction site of the multi-threaded executor (found %d)" % n)
